@@ -24,14 +24,27 @@ LEAN = dict(
     props="LeaspyVerif.Props.C10",
     driver="drivers/C10.lean",
     harness="c10_gauge.py",
-    extra_modules=["LeaspyVerif.Model.Traj", "LeaspyVerif.Model.Gauge", "LeaspyVerif.Lemmas.TrajReal"],
+    extra_modules=["LeaspyVerif.Model.Traj", "LeaspyVerif.Model.Gauge", "LeaspyVerif.Model.MStep", "LeaspyVerif.Model.Dist",
+                   "LeaspyVerif.Lemmas.TrajReal"],
     theorems=["center_mean_zero", "centerJoint_components", "centerJoint_mean_zero", "center_preserves_v0alpha",
               "center_preserves_v0rt", "center_preserves_logistic", "center_preserves_linear",
               "center_preserves_logisticTraj", "center_preserves_linearTraj", "center_preserves_attachment",
               "centerJoint_preserves_nuRep", "centerJoint_preserves_nuRepSources", "centerJoint_without_compensation",
               "householder_orth", "basis_cols_orth", "mixing_rows_orth", "spaceShift_orth",
               "spaceShift_orth_of_householder", "householder_degenerate_counterexample", "spaceShift_orth_real",
-              "manifold_spaceShift_orth", "sharedSpeed_spaceShift_orth"],
+              "manifold_spaceShift_orth", "sharedSpeed_spaceShift_orth",
+              # gauge completeness
+              "center_eq_shift", "shift_group", "center_of_mean_zero", "center_idempotent", "center_shift",
+              "shift_neg_mean_center", "gauge_fibre_iff", "centerJoint_idempotent", "centerJoint_shiftJoint",
+              "suffXi_sums", "xi_mean_update_after_center", "xi_var_update_after_center", "xi_std_burnin_gauge_invariant",
+              "regul_xi_shift", "regul_xi_center", "regul_xi_center_hyper", "regul_xi_invariant_iff",
+              "regul_xi_not_invariant_counterexample",
+              # orthonormality
+              "householderQ_symm", "householderQ_orthogonal", "householderQ_involutive", "householderQ_col_j",
+              "householderQ_reflects", "basis_orthonormal", "basis_cols_unit", "basis_cols_pairwise_orth",
+              "basis_projector", "basis_spans_complement", "spaceShift_in_basis", "basis_cols_metric_orth_direction",
+              "basis_metric_orthonormal_counterexample", "basis_metric_orthonormal_partial", "mixing_rank_le",
+              "householderQ_orthogonal_real", "basis_orthonormal_real", "manifold_basis_orthonormal"],
     trusted_extra=[
         "theorems are over an ordered field / the reals (Real.exp, Real.sqrt); the executable instance is IEEE double "
         "(Float.exp / Float.sqrt), the implementation is torch float32: compared inside derived envelopes",
@@ -43,6 +56,14 @@ LEAN = dict(
         "(|y-model|*2tol + 4tol^2)/sigma^2 + 64*eps32*(|nll| + n_obs*(|log sigma|+1)); event NLL: 64*eps32*(1+rho)*(survival + |log hazard| + 1); "
         "mean(xi): n*2*eps32*max|xi|; orthogonality: |<row, a>| <= 64*eps32*||a||_2*sum_j|betas_js| (times sum|sources| for a shift)",
         "the Householder hypothesis a_j != 0 is discharged by v0 = exp(.) > 0, metric > 0; the excluded point is run on the real code and reported in evidence",
+        "orthonormality (dtype eps = 2^-24 float32 / 2^-53 float64, dimension <= 6): |B^T B - I|, |B B^T + a a^T/|a|^2 - I| <= 64*eps entrywise "
+        "(each entry is a sum of <= 6 products of entries of magnitude <= 1 that carry a few ulps each from the norm, the division and 1 - 2 v_i v_k); "
+        "model Gram matrices against the implementation's: 64*eps (times max G for the metric-weighted one)",
+        "idempotence / orbit of the centring: the first centring leaves a float32 mean r with |r| <= 2(n+2)*eps32*(max|xi|+|m|), so a second centring moves every "
+        "entry by at most |r| + 2*eps32*|entry|; centring after a shift by c: 2(n+4)*eps32*(max|xi|+|m|+|c|+max|log_v0|+max|n_log_nu|+3)",
+        "sufficient statistics: |sum xi'| <= n*(mean envelope); |sum xi'^2 - (sum xi^2 - n m^2)| <= 2*[2(n+2)*eps32*(max|xi|+|m|)*sum|xi_i-m| + 4*eps32*sum(xi_i-m)^2] "
+        "(entry error of xi' times 2|xi'|, plus the rounding of the squares and of the float32 sum); xi_std^2 from the real update rule: the same over n, relative 8*eps32 for the sqrt",
+        "nll_regul_xi: 32*eps32*sum_i(0.5 z_i^2 + |log sigma| + c) for the float32 entry-wise formula and sum, plus sum_i |z'_i|*delta/sigma for the entry error delta of xi' after centring",
     ],
 )
 
@@ -58,7 +79,9 @@ def _imports():
     from leaspy.utils.linalg import compute_orthonormal_basis
     from leaspy.utils.weighted_tensor import WeightedTensor
     from leaspy import exceptions as lex
-    return dict(np=np, pd=pd, torch=torch, BaseModel=BaseModel, Data=Data, Dataset=Dataset, cob=compute_orthonormal_basis,
+    from leaspy.variables.specs import ModelParameter
+    from leaspy.variables.distributions import NormalFamily as Normal
+    return dict(MP=ModelParameter, Normal=Normal, np=np, pd=pd, torch=torch, BaseModel=BaseModel, Data=Data, Dataset=Dataset, cob=compute_orthonormal_basis,
                 WeightedTensor=WeightedTensor, lex=lex)
 
 
@@ -178,7 +201,7 @@ def build_state(env, chk, rng, kind, d, ns, n_ind, case):
 
 
 def snapshot(env, state, kind, ns):
-    names = ["model", "nll_attach_ind", "xi", "log_v0", "tau", "v0", "metric"]
+    names = ["model", "nll_attach_ind", "xi", "log_v0", "tau", "v0", "metric", "nll_regul_xi", "xi_std", "xi_mean"]
     names.append("g" if kind == "linear" else "log_g")
     if kind == "joint":
         names += ["nll_attach_y_ind", "nll_attach_event_ind", "n_log_nu", "nu", "rho", "event"]
@@ -210,9 +233,31 @@ def center_case(chk, env, rng, kind, d, ns, n_ind, lines, pending, forced=None):
             type(model)._center_xi_realizations(A)
             after_direct = snapshot(env, A, kind, ns)
             B = state.clone(disable_auto_fork=True)
-            model.compute_sufficient_statistics(B)
+            suff = model.compute_sufficient_statistics(B)
             after = snapshot(env, B, kind, ns)
             untouched = snapshot(env, state, kind, ns)
+            # centring twice; centring after a gauge shift by c
+            A2 = A.clone(disable_auto_fork=True)
+            type(model)._center_xi_realizations(A2)
+            twice = snapshot(env, A2, kind, ns)
+            gc = case.get("gauge_c")
+            if gc is None:
+                gc = f32(rng.uniform(-2, 2))
+                case["gauge_c"] = gc
+            S = state.clone(disable_auto_fork=True)
+            S["xi"] = (state["xi"] - gc).float()
+            S["log_v0"] = (state["log_v0"] + gc).float()
+            if kind == "joint":
+                S["n_log_nu"] = (state["n_log_nu"] + gc).float()
+            type(model)._center_xi_realizations(S)
+            orbit = snapshot(env, S, kind, ns)
+            # the real M-step rule of xi_std on the statistics collected after the centring
+            mp = B.dag.sorted_variables_by_type[env["MP"]]
+            has_xi_mean_rule = "xi_mean" in mp
+            try:
+                std_new = float(mp["xi_std"].compute_update(state=B.clone(disable_auto_fork=True), suff_stats=suff, burn_in=False).reshape(-1)[0])
+            except env["lex"].LeaspyConvergenceError:
+                std_new = "err:algo"
     except Exception as e:  # noqa
         chk.impl_failure(case, f"re-centring raised on an admissible state: {err_class(e, env)}: {e}")
         return
@@ -321,6 +366,8 @@ def center_case(chk, env, rng, kind, d, ns, n_ind, lines, pending, forced=None):
                 return math.exp(-x) * nn
             lines.append(args)
             pending.append(("nurep", dict(case, individual=i), (nurep(before), nurep(after)), None))
+    # 6. gauge completeness on the real code: idempotence, constancy on the orbit, sufficient statistics, regularity term
+    gauge_extra(chk, env, case, kind, n, before, after_direct, twice, orbit, suff, std_new, has_xi_mean_rule, gc, tol_mean, fails, lines, pending)
     # 5. space shifts / mixing unchanged up to rounding (the new v0 is collinear to the old one)
     if ns > 0:
         bsum = max(sum(abs(b) for b in col) for col in zip(*pop["betas"]))
@@ -351,6 +398,89 @@ def center_case(chk, env, rng, kind, d, ns, n_ind, lines, pending, forced=None):
     # orthogonality on this very state too
     if ns > 0:
         ortho_state(chk, env, case, kind, before, lines, pending)
+
+
+def gauge_extra(chk, env, case, kind, n, before, once, twice, orbit, suff, std_new, has_xi_mean_rule, gc, tol_mean, fails, lines, pending):
+    """idempotence / orbit / sufficient statistics / regularity term, on the implementation's tensors; queues the `gauge2` model line"""
+    torch = env["torch"]
+    xi0 = before["xi"].reshape(-1)
+    m = float(xi0.mean())
+    xmax = float(xi0.abs().max())
+    lv = before["log_v0"].reshape(-1)
+    nl = before["n_log_nu"].reshape(-1) if kind == "joint" else None
+    names = ["xi", "log_v0"] + (["n_log_nu"] if kind == "joint" else [])
+    # idempotence
+    for k in names:
+        a1, a2 = once[k].reshape(-1), twice[k].reshape(-1)
+        tol = tol_mean + 2 * EPS32 * float(a1.abs().max()) + 1e-30
+        dev = float((a2 - a1).abs().max())
+        if dev > tol:
+            fails.append(f"re-centring is not idempotent on '{k}': a second centring moves it by {dev:.3g} (envelope {tol:.3g}; mean(xi) after the first was {float(once['xi'].mean())!r})")
+            break
+    scale = xmax + abs(m) + abs(gc) + float(lv.abs().max()) + (float(nl.abs().max()) if nl is not None else 0.0) + 3.0
+    tol_orbit = 2 * (n + 4) * EPS32 * scale
+    for k in names:
+        dev = float((orbit[k].reshape(-1) - once[k].reshape(-1)).abs().max())
+        if dev > tol_orbit:
+            fails.append(f"centring after the gauge shift c = {gc!r} (xi - c, log_v0 + c{', n_log_nu + c' if kind == 'joint' else ''}) differs from centring directly on '{k}' by {dev:.3g} (envelope {tol_orbit:.3g})")
+            break
+    # sufficient statistics collected after the centring
+    sx = sq = None
+    try:
+        sxi, sxq = suff["xi"].double().reshape(-1), suff["xi_sqr"].double().reshape(-1)
+        if not torch.equal(sxi, once["xi"].reshape(-1)):
+            fails.append("sufficient statistic 'xi' is not the centred xi of the state")
+        sx, sq = float(sxi.sum()), float(sxq.sum())
+    except KeyError as e:
+        fails.append(f"sufficient statistics lack {e}")
+    dev0 = (xi0 - m)
+    s2 = float((dev0 * dev0).sum())          # = sum xi^2 - n m^2, in double
+    s2_alt = float((xi0 * xi0).sum()) - n * m * m
+    env_sq = 2 * (2 * (n + 2) * EPS32 * (xmax + abs(m)) * float(dev0.abs().sum()) + 4 * EPS32 * s2) + 1e-30
+    if sx is not None:
+        if abs(sx) > n * tol_mean:
+            fails.append(f"sum of the collected statistic 'xi' is {sx!r}, not 0 (envelope {n*tol_mean:.3g}; mean removed {m!r})")
+        if abs(sq - s2) > env_sq or abs(sq - s2_alt) > env_sq + 8 * 2.0 ** -53 * (float((xi0 * xi0).sum()) + n * m * m):
+            fails.append(f"sum of the collected statistic 'xi_sqr' is {sq!r}, expected sum(xi^2) - n*mean^2 = {s2!r} (envelope {env_sq:.3g})")
+    # M-step consequences on the real rules
+    if has_xi_mean_rule:
+        chk.tag("xi_mean_rule", "is-a-model-parameter")
+    elif float(before["xi_mean"].reshape(-1)[0]) != 0.0:
+        fails.append(f"xi_mean hyperparameter is {float(before['xi_mean'].reshape(-1)[0])!r}, not 0: the centred statistics (mean exactly 0) no longer match the prior mean")
+    var = s2 / n
+    if isinstance(std_new, str) or std_new is None:
+        chk.tag("xi_std_rule", "refused" if var < 1e-5 * (1 + 1e-3) else "refused-unexpectedly")
+        if var > 1e-5 * (1 + 1e-3) + env_sq / n:
+            fails.append(f"xi_std update rule refused statistics with dispersion {var!r} around 0")
+    else:
+        chk.tag("xi_std_rule", "ok")
+        if abs(std_new * std_new - var) > env_sq / n + 16 * EPS32 * var:
+            fails.append(f"xi_std update from the centred statistics is {std_new!r} (square {std_new*std_new!r}); dispersion of xi around its mean is {var!r}")
+    # regularity term: NOT gauge-invariant; changes by n m (2 mu - m) / (2 sigma^2)
+    sig = float(before["xi_std"].reshape(-1)[0])
+    mu = float(before["xi_mean"].reshape(-1)[0])
+    cst = float(env["Normal"].nll_constant_standard)
+    z0 = (xi0 - mu) / sig
+    z1 = (xi0 - m - mu) / sig
+    delta = (n + 1) * EPS32 * (xmax + abs(m))
+    env_b = 32 * EPS32 * float((0.5 * z0 * z0 + abs(math.log(sig)) + cst).sum())
+    env_a = 32 * EPS32 * float((0.5 * z1 * z1 + abs(math.log(sig)) + cst).sum()) + float(z1.abs().sum()) * delta / sig
+    rb, ra = float(before["nll_regul_xi"].reshape(-1)[0]), float(once["nll_regul_xi"].reshape(-1)[0])
+    expected = n * m * (2 * mu - m) / (2 * sig * sig)
+    if abs((ra - rb) - expected) > env_a + env_b:
+        fails.append(f"nll_regul_xi moved by {ra-rb!r} under the re-centring, expected n*m*(2*mu-m)/(2*sigma^2) = {expected!r} (envelope {env_a+env_b:.3g})")
+    chk.tag("regul_xi", "changed-beyond-rounding" if abs(ra - rb) > env_a + env_b else "within-rounding")
+    chk.extra_cov["max_regul_xi_drop"] = max(chk.extra_cov.get("max_regul_xi_drop", 0.0), rb - ra)
+    lines.append(f"gauge2 xi={fmt_list(xi0.tolist(), fmt_float)} logv0={fmt_list(lv.tolist(), fmt_float)} "
+                 f"nlognu={fmt_list(nl.tolist(), fmt_float) if nl is not None else 'none'} c={fmt_float(gc)} mu={fmt_float(mu)} "
+                 f"sigma={fmt_float(sig)} cst={fmt_float(cst)}")
+    impl = {"sum": sx, "sumsq": sq, "regul_before": rb, "regul_after": ra, "tol_lin": tol_orbit, "tol_sum": n * tol_mean, "tol_sq": env_sq,
+            "tol_rb": env_b, "tol_ra": env_a}
+    for tag, snap in (("once", once), ("twice", twice), ("orbit", orbit)):
+        impl[f"{tag}_xi"] = snap["xi"].reshape(-1).tolist()
+        impl[f"{tag}_logv0"] = snap["log_v0"].reshape(-1).tolist()
+        impl[f"{tag}_nlognu"] = snap["n_log_nu"].reshape(-1).tolist() if kind == "joint" else None
+    pending.append(("gauge2", dict(case, op="center"), impl, None))
 
 
 def ortho_state(chk, env, case, kind, snap, lines, pending):
@@ -453,7 +583,13 @@ def direct_case(chk, env, rng, lines, pending, spec=None):
         dg = [f32(rng.choice([1, -1]) * math.exp(rng.uniform(-4, 2))) for _ in range(d)]
         G = [f32(math.exp(rng.uniform(-2, 4))) for _ in range(d)]
         j = rng.randrange(0, d)
-        flavour = rng.choice(["ok"] * 6 + ["neg", "size", "strip"])
+        flavour = rng.choice(["ok"] * 4 + ["nometric", "nometric", "scalar", "neg", "size", "strip"])
+        scalar = False
+        if flavour == "nometric":          # Euclidean case: G is the identity
+            G = [1.0] * d
+        elif flavour == "scalar":          # 0-D metric: G proportional to the identity (the `G_metric.item() * dgamma_t0` branch)
+            G = [G[0]] * d
+            scalar = True
         if flavour == "neg":
             G[rng.randrange(d)] = rng.choice([0.0, -1.0])
         elif flavour == "size":
@@ -461,6 +597,8 @@ def direct_case(chk, env, rng, lines, pending, spec=None):
         elif flavour == "strip":
             j = d + rng.randrange(0, 2)
         spec = {"dgamma": dg, "G": G, "j": j, "dtype": dtype}
+        if scalar:
+            spec["scalar"] = True
     case = dict(spec, op="compute_orthonormal_basis")
     dt = torch.float64 if spec["dtype"] == "float64" else torch.float32
     eps = 2.0 ** -53 if spec["dtype"] == "float64" else EPS32
@@ -468,7 +606,8 @@ def direct_case(chk, env, rng, lines, pending, spec=None):
     d = len(dg)
     try:
         with core.quiet():
-            Q = cob(torch.tensor(dg, dtype=dt), torch.tensor(G, dtype=dt), strip_col=j)
+            Gt = torch.tensor(G[0], dtype=dt) if spec.get("scalar") else torch.tensor(G, dtype=dt)
+            Q = cob(torch.tensor(dg, dtype=dt), Gt, strip_col=j)
         impl = {"basis": Q.double().tolist(), "eps": eps}
     except AssertionError:
         impl = "err:stripcol"
@@ -501,7 +640,28 @@ def direct_case(chk, env, rng, lines, pending, spec=None):
                 if float(dots.max()) > 64 * eps * float(av.norm()):
                     chk.impl_failure(case, f"basis column not orthogonal to G*dgamma: |<col, a>| = {float(dots.max()):.3g}, ||a|| = {float(av.norm()):.3g}")
                 if float(gram) > 64 * eps:
-                    chk.impl_failure(case, f"basis columns not orthonormal: max |B^T B - I| = {float(gram):.3g}")
+                    norms = (B * B).sum(0).sqrt()
+                    chk.impl_failure(case, f"basis columns not orthonormal for the canonical inner product: max |B^T B - I| = {float(gram):.3g} "
+                                           f"(column norms {[round(float(x), 9) for x in norms]}, envelope {64*eps:.3g})")
+                # completeness: [a/||a|| | B] is a full orthonormal frame, i.e. B B^T is the projector onto the complement of a
+                ah = av / av.norm()
+                comp = (B @ B.t() + ah.view(-1, 1) * ah - torch.eye(d, dtype=torch.float64)).abs().max()
+                if float(comp) > 64 * eps:
+                    chk.impl_failure(case, f"B B^T is not the orthogonal projector onto the complement of a = G*dgamma: max |B B^T + a a^T/|a|^2 - I| = {float(comp):.3g} (envelope {64*eps:.3g})")
+                # for the record: the basis is NOT orthonormal for the metric unless G is scalar (basis_metric_orthonormal_counterexample)
+                Gv = torch.tensor(G, dtype=torch.float64)
+                gdev = float((B.t() @ (Gv.view(-1, 1) * B) - float(Gv[0]) * torch.eye(d - 1, dtype=torch.float64)).abs().max()) / float(Gv.max())
+                is_scalar = all(g == G[0] for g in G)
+                if is_scalar and gdev > 64 * eps:
+                    chk.impl_failure(case, f"scalar metric g = {G[0]!r}: B^T (g I) B deviates from g I by {gdev:.3g} (relative to g)")
+                if not is_scalar:
+                    chk.tag("metric_gram", "not-metric-orthonormal" if gdev > 64 * eps else "metric-orthonormal-by-accident")
+                    chk.extra_cov["max_metric_gram_dev"] = max(chk.extra_cov.get("max_metric_gram_dev", 0.0), gdev)
+                sgn = 1.0 if a[j] > 0 else -1.0
+                lines.append(f"gram dgamma={fmt_list(dg, fmt_float)} G={fmt_list(G, fmt_float)} j={j}")
+                pending.append(("gram", case, {"gram": (B.t() @ B).tolist(), "proj": (B @ B.t()).tolist(),
+                                               "gramg": (B.t() @ (Gv.view(-1, 1) * B)).tolist(), "gmax": float(Gv.max()),
+                                               "colj": (-sgn * ah).tolist(), "eps": eps}, None))
     lines.append(f"ortho dgamma={fmt_list(dg, fmt_float)} G={fmt_list(G, fmt_float)} j={j} betas=none src=none")
     pending.append(("ortho", case, impl, None))
     chk.case(("direct", json.dumps(spec, sort_keys=True)), nontrivial=(valid and d > 1 and not excluded), sample=spec if d <= 3 and len(chk.samples) < 5 else None,
@@ -562,6 +722,45 @@ def compare(chk, lines, pending):
             mb, ma = parse_float(r["before"]), parse_float(r["after"])
             if not (abs(impl[0] - mb) <= 16 * EPS32 * abs(mb) and abs(impl[1] - ma) <= 16 * EPS32 * abs(ma)):
                 chk.disagree(case, impl, (mb, ma), "reparametrised Weibull scale before / after the joint re-centring")
+        elif kind == "gauge2":
+            if not resp.startswith("once_xi="):
+                chk.disagree(case, "values", resp, "model refused the gauge2 request")
+                continue
+            r = parse_kv(resp)
+            bad = None
+            for tag in ("once", "twice", "orbit"):
+                for fld in ("xi", "logv0", "nlognu"):
+                    if not close_lists(impl[f"{tag}_{fld}"], pv(r[f"{tag}_{fld}"]), impl["tol_lin"]):
+                        bad = (impl[f"{tag}_{fld}"], pv(r[f"{tag}_{fld}"]), f"{fld} after centring ({tag}: once = center, twice = center.center, orbit = center.shift c)")
+                        break
+                if bad:
+                    break
+            if bad is None and impl["sum"] is not None:
+                if not abs(impl["sum"] - parse_float(r["sum"])) <= impl["tol_sum"]:
+                    bad = (impl["sum"], parse_float(r["sum"]), "sum of the statistic xi collected after centring")
+                elif not abs(impl["sumsq"] - parse_float(r["sumsq"])) <= impl["tol_sq"]:
+                    bad = (impl["sumsq"], parse_float(r["sumsq"]), "sum of the statistic xi_sqr collected after centring")
+            if bad is None:
+                if not abs(impl["regul_before"] - parse_float(r["regul_before"])) <= impl["tol_rb"]:
+                    bad = (impl["regul_before"], parse_float(r["regul_before"]), "nll_regul_xi before centring")
+                elif not abs(impl["regul_after"] - parse_float(r["regul_after"])) <= impl["tol_ra"]:
+                    bad = (impl["regul_after"], parse_float(r["regul_after"]), "nll_regul_xi after centring")
+            if bad:
+                chk.disagree(case, *bad)
+        elif kind == "gram":
+            if not resp.startswith("gram="):
+                chk.disagree(case, "gram", resp, "model refused the gram request")
+                continue
+            r = parse_kv(resp)
+            eps = impl["eps"]
+            for key, scale in (("gram", 1.0), ("proj", 1.0), ("gramg", impl["gmax"])):
+                if not close_lists(impl[key], pm(r[key]), 64 * eps * scale):
+                    chk.disagree(case, impl[key], pm(r[key]), {"gram": "B^T B", "proj": "B B^T", "gramg": "B^T diag(G) B"}[key] + " of the orthonormal basis")
+                    break
+            else:
+                # the stripped column of the model's Q against the closed form -sign(a_j) a / ||a|| (both double)
+                if not close_lists(impl["colj"], pv(r["colj"]), 1e-12):
+                    chk.disagree(case, impl["colj"], pv(r["colj"]), "stripped column Q[:, j] vs -sign(a_j) a/||a||")
         elif kind == "ssvec":
             r = parse_kv(resp) if resp.startswith("collin=") else None
             if r is None:
@@ -611,6 +810,10 @@ EXCLUDED = [
     {"dgamma": [0.0, 3.0, 4.0], "G": [1.0, 1.0, 1.0], "j": 0, "dtype": "float64"},
     {"dgamma": [2.0, 0.0, 1.0], "G": [1.0, 2.0, 1.0], "j": 1, "dtype": "float32"},
 ]
+METRIC_WITNESS = [   # basis_metric_orthonormal_counterexample: Euclidean-orthonormal, not orthonormal for G = (1, 1, 4)
+    {"dgamma": [7.0, 14.4, 4.8], "G": [1.0, 1.0, 4.0], "j": 0, "dtype": "float64"},
+    {"dgamma": [7.0, 14.4, 4.8], "G": [1.0, 1.0, 4.0], "j": 0, "dtype": "float32"},
+]
 PYTHAGOREAN = [
     {"dgamma": [7.0, 14.4, 19.2], "G": [1.0, 1.0, 1.0], "j": 0, "dtype": "float64"},
     {"dgamma": [7.0, 24.0], "G": [1.0, 1.0], "j": 0, "dtype": "float64"},
@@ -625,13 +828,15 @@ def run(chk: core.Check):
                 "joint models, dimension 1..4, source dimension 0..dim-1, 1..8 individuals with 1-4 visits and missing values, on a "
                 "synthetic cohort; both entry points (_center_xi_realizations, compute_sufficient_statistics) on clones. orthogonality: "
                 "the same states, shared-speed states, and direct compute_orthonormal_basis calls (dimension 1..6, any strip column, both "
-                "dtypes, refused inputs, the excluded point a_j = 0). Non-trivial: centring with >= 2 individuals and |mean xi| > 1e-3; "
+                "dtypes, 1-D metric / identity metric / 0-D scalar metric, refused inputs, the excluded point a_j = 0): B^T B = I, B B^T + a a^T/|a|^2 = I. "
+                "gauge completeness on every centring case: second centring, centring after a random gauge shift c in [-2, 2], sums of the collected "
+                "statistics xi / xi_sqr, the real xi_std update rule, nll_regul_xi before / after. Non-trivial: centring with >= 2 individuals and |mean xi| > 1e-3; "
                 "orthogonality with dimension >= 2 at an admissible point; distinct by full state / input.")
     lines, pending = [], []
     for c in core.load_corpus(PROP):
         if c.get("op") == "compute_orthonormal_basis":
-            direct_case(chk, env, rng, lines, pending, spec={k: c[k] for k in ("dgamma", "G", "j", "dtype")})
-    for spec in EXCLUDED + PYTHAGOREAN:
+            direct_case(chk, env, rng, lines, pending, spec={k: c[k] for k in ("dgamma", "G", "j", "dtype", "scalar") if k in c})
+    for spec in EXCLUDED + PYTHAGOREAN + METRIC_WITNESS:
         direct_case(chk, env, rng, lines, pending, spec=dict(spec))
     combos = []
     for kind in ("logistic", "linear", "joint"):
@@ -663,12 +868,14 @@ def replay(chk: core.Check, payload):
         return
     lines, pending = [], []
     if case.get("op") == "compute_orthonormal_basis":
-        direct_case(chk, env, chk.rng, lines, pending, spec={k: case[k] for k in ("dgamma", "G", "j", "dtype")})
+        direct_case(chk, env, chk.rng, lines, pending, spec={k: case[k] for k in ("dgamma", "G", "j", "dtype", "scalar") if k in case})
     elif case.get("op") in ("center", "ortho-state"):
         torch, pd = env["torch"], env["pd"]
 
         def forced(c):
             c.update({"settings": case["settings"], "table": case["table"], "latents": case["latents"]})
+            if "gauge_c" in case:
+                c["gauge_c"] = case["gauge_c"]
             kind = case["kind"]
             with core.quiet():
                 model = env["BaseModel"].load(case["settings"])
